@@ -302,6 +302,61 @@ func TestVerifAnalysis(t *testing.T) {
 			}
 		}()
 		vEmit(vmap{"ev": "Case", "scen": id, "npre": 1, "n": n, "signed": false, "base": 0, "panic": pan, "bad": bad, "kind": "projectors"})
+		// the same model on a SIGNED channel whose samples are partly negative: x' = x - shift as two's-complement words.
+		// Expected values by the definitions of Analysis.tla (coefs = P x', rsd2 = population variance of x' - B coefs),
+		// computed here in exact integer arithmetic.
+		if pan == "" {
+			id++
+			shift := int64(20000 + 7*(id%13))
+			xs := make([]int64, n)
+			rec := &DataRecord{data: make([]RawType, n), presamples: 1, signed: true}
+			for i, x := range c.X {
+				xs[i] = int64(x) - shift
+				rec.data[i] = RawType(uint16(int16(xs[i])))
+			}
+			coef := make([]int64, c.K)
+			for r := 0; r < c.K; r++ {
+				for j := 0; j < n; j++ {
+					coef[r] += int64(c.P[r][j]) * xs[j]
+				}
+			}
+			sr, sr2 := new(big.Int), new(big.Int)
+			for j := 0; j < n; j++ {
+				m := int64(0)
+				for r := 0; r < c.K; r++ {
+					m += int64(c.B[j][r]) * coef[r]
+				}
+				res := big.NewInt(xs[j] - m)
+				sr.Add(sr, res)
+				sr2.Add(sr2, new(big.Int).Mul(res, res))
+			}
+			num := new(big.Int).Sub(new(big.Int).Mul(big.NewInt(int64(n)), sr2), new(big.Int).Mul(sr, sr))
+			want := new(big.Rat).SetFrac(num, big.NewInt(int64(n)*int64(n)))
+			var pan3 string
+			bad3 := []string{}
+			func() {
+				defer func() {
+					if r := recover(); r != nil {
+						pan3 = fmt.Sprint(r)
+					}
+				}()
+				d2.AnalyzeData([]*DataRecord{rec})
+				if len(rec.modelCoefs) != c.K {
+					bad3 = append(bad3, "coefs")
+				} else {
+					for r := 0; r < c.K; r++ {
+						if ok, _ := anClose(rec.modelCoefs[r], new(big.Rat).SetInt64(coef[r]), 1); !ok {
+							bad3 = append(bad3, "coefs")
+							break
+						}
+					}
+				}
+				if ok, _ := anClose(rec.residualStdDev*rec.residualStdDev, want, 1); !ok {
+					bad3 = append(bad3, "resid")
+				}
+			}()
+			vEmit(vmap{"ev": "Case", "scen": id, "npre": 1, "n": n, "signed": true, "base": int(-shift), "panic": pan3, "bad": bad3, "kind": "projectors-signed"})
+		}
 		// history: a load that is REFUSED (projectors of the right shape, basis of the wrong one) must leave the channel's
 		// model as it was - on a channel with a model (same record, same results afterwards) and on a bare one
 		if pan == "" && id%8 == 0 {
